@@ -87,6 +87,8 @@ pub struct ScopeCase {
     pub instruments: Vec<InstSpec>,
     pub filter: FilterSpec,
     pub close_positions: bool,
+    #[serde(default)]
+    pub shared_cids: bool,
 }
 
 type ScopeEngine = Engine<TestClock, DefaultState, MultiExchangeTxMap<UnboundedTx<ExecutionRequest>>, DefaultStrategy<DefaultState>, DefaultRiskManager<DefaultState>>;
@@ -142,7 +144,9 @@ fn build_state(case: &ScopeCase) -> (barter_instrument::index::IndexedInstrument
         let exchange = indexed.instruments()[i].value.exchange.key;
         let st = state.instruments.instrument_index_mut(&key);
         for (k, o) in spec.orders.iter().enumerate() {
-            let cid = ClientOrderId::new(format!("i{i}-o{k}"));
+            // ids are unique per instrument; with `shared_cids` every instrument numbers its own
+            // orders o0, o1, .. so that instruments share ids
+            let cid = ClientOrderId::new(if case.shared_cids { format!("o{k}") } else { format!("i{i}-o{k}") });
             let open = |filled: u8| Open { id: OrderId::new(format!("x{i}-{k}")), time_exchange: ts(T0_MS + 1000 + k as i64), filled_quantity: Decimal::from(filled) };
             let order_state = match o {
                 OrdSpec::OpenInFlight => ActiveOrderState::OpenInFlight(OpenInFlight),
@@ -268,8 +272,8 @@ impl Check for CommandScope {
 
 
     fn strategy(_tier: Tier) -> BoxedStrategy<ScopeCase> {
-        (simple_world(2..=3, 1..5), prop::collection::vec(inst_spec(), 1..8), strat::filter_spec(), any::<bool>())
-            .prop_map(|(defs, instruments, filter, close_positions)| ScopeCase { defs, instruments, filter, close_positions })
+        (simple_world(2..=3, 1..5), prop::collection::vec(inst_spec(), 1..8), strat::filter_spec(), any::<bool>(), prop::bool::weighted(0.4))
+            .prop_map(|(defs, instruments, filter, close_positions, shared_cids)| ScopeCase { defs, instruments, filter, close_positions, shared_cids })
             .boxed()
     }
 
@@ -525,6 +529,7 @@ impl Check for CommandScope {
         rep.class(if case.close_positions { "close_positions" } else { "cancel_orders" });
         rep.class_if(strict_subset, "filter_matches_strict_subset");
         rep.class_if(n_match == 0, "filter_matches_nothing");
+        rep.class_if(case.shared_cids, "instruments_share_client_order_ids");
         rep.class_if(matches!(&case.filter, crate::props::enginekit::FilterSpec::Exchanges(v) | crate::props::enginekit::FilterSpec::Instruments(v) | crate::props::enginekit::FilterSpec::Underlyings(v) if v.is_empty()), "empty_selection");
         rep.class_if(both_kinds_in_one, "cancellable_and_cancel_in_flight_together");
         rep.class_if(pos_with_and_without_price.0 && pos_with_and_without_price.1, "position_with_and_without_price");
@@ -534,7 +539,7 @@ impl Check for CommandScope {
 }
 
 pub fn run(ctx: &mut Ctx) {
-    ctx.rule = "command_scope: 2..3 exchanges, 3..7 instruments (spot and perpetual on shared underlyings), per instrument 0..4 orders in {open-in-flight, open, partially filled open, cancel-in-flight with/without open data} with time in force rotating through GTC / post-only / IOC / FOK / end-of-day, flat/long/short position, price unknown / last trade / two-sided L1 / one-sided L1; filter in {none, exchange subsets, instrument subsets, underlying subsets} incl. keys absent from the state and empty selections (built through the public constructors: they select nothing); command CancelOrders (issued twice) or ClosePositions through Engine::process with DefaultStrategy on healthy links. non-trivial = filter matches a strict non-empty subset AND (a matching instrument holds both a cancellable and a cancel-in-flight order, or matching positions with and without a price exist); distinct by hash of the case.".into();
+    ctx.rule = "command_scope: 2..3 exchanges, 3..7 instruments (spot and perpetual on shared underlyings), per instrument 0..4 orders in {open-in-flight, open, partially filled open, cancel-in-flight with/without open data} with time in force rotating through GTC / post-only / IOC / FOK / end-of-day, (in 40% of the cases every instrument numbers its own orders, so instruments share client order ids), flat/long/short position, price unknown / last trade / two-sided L1 / one-sided L1; filter in {none, exchange subsets, instrument subsets, underlying subsets} incl. keys absent from the state and empty selections (built through the public constructors: they select nothing); command CancelOrders (issued twice) or ClosePositions through Engine::process with DefaultStrategy on healthy links. non-trivial = filter matches a strict non-empty subset AND (a matching instrument holds both a cancellable and a cancel-in-flight order, or matching positions with and without a price exist); distinct by hash of the case.".into();
     ctx.assumptions = vec!["an instrument's market price is what InstrumentDataState::price() reports (documented: volume-weighted mid of a two-sided L1, else last traded price)".into()];
     ctx.run_regressions::<CommandScope>();
     ctx.run::<CommandScope>(ctx.tier.pick(60_000, 1_000_000));
